@@ -23,19 +23,50 @@ Proof.
   intros _. destruct (c_name c), (c_ext c); try discriminate; reflexivity.
 Qed.
 
-Lemma cfg_ok_hashed c : (c_ext c = E0003 \/ c_ext c = E0004) -> cfg_ok c = true ->
-  (c_ts c = 0 <-> c_nt c = 0) /\ c_ts c * c_nt c <= alg_hexlen (c_alg c).
+Lemma max_tuple_config : K_MAX_TUPLE_CONFIG = 32.
+Proof. reflexivity. Qed.
+
+Lemma validate_tuple_config_inv ts nt : validate_tuple_config ts nt = true ->
+  ts <= 32 /\ nt <= 32 /\ (ts = 0 <-> nt = 0).
+Proof.
+  unfold validate_tuple_config. rewrite max_tuple_config.
+  destruct ((32 <? ts) || (32 <? nt)) eqn:E0; [discriminate|].
+  destruct (((ts =? 0) || (nt =? 0)) && (negb (ts =? 0) || negb (nt =? 0))) eqn:E1; [discriminate|].
+  intros _. lia.
+Qed.
+
+Lemma usize_mul_small dbg x y : x <= 32 -> y <= 32 -> usize_mul dbg x y = Ok (x * y).
+Proof.
+  intros Hx Hy. unfold usize_mul, USIZE_MAX. assert (x * y <= 1024) by nia.
+  replace (x * y <=? 18446744073709551615) with true by lia. reflexivity.
+Qed.
+
+(** what 0003 and 0004 share: bounds, zero coupling, product within the digest *)
+Lemma cfg_ok_hashed_full c : (c_ext c = E0003 \/ c_ext c = E0004) -> cfg_ok c = true ->
+  c_ts c <= 32 /\ c_nt c <= 32 /\ (c_ts c = 0 <-> c_nt c = 0) /\ c_ts c * c_nt c <= alg_hexlen (c_alg c) /\
+  (c_ext c = E0004 -> c_short c = true -> c_ts c * c_nt c <> alg_hexlen (c_alg c)).
 Proof.
   intros He. unfold cfg_ok, validate.
   destruct (negb (ext_eqb (c_name c) (c_ext c))); [discriminate|].
-  assert (G : match (if ((c_ts c =? 0) || (c_nt c =? 0)) && (negb (c_ts c =? 0) || negb (c_nt c =? 0)) then Err
-      else res_bind (usize_mul true (c_ts c) (c_nt c)) (fun total => if alg_hexlen (c_alg c) <? total then Err else Ok c))
-      with Ok _ => true | _ => false end = true ->
-      (c_ts c = 0 <-> c_nt c = 0) /\ c_ts c * c_nt c <= alg_hexlen (c_alg c)).
-  { destruct (((c_ts c =? 0) || (c_nt c =? 0)) && (negb (c_ts c =? 0) || negb (c_nt c =? 0))) eqn:E1; [discriminate|].
-    unfold usize_mul. destruct (c_ts c * c_nt c <=? USIZE_MAX) eqn:E2; cbn [res_bind]; [|discriminate].
-    destruct (alg_hexlen (c_alg c) <? c_ts c * c_nt c) eqn:E3; [discriminate|]. intros _. lia. }
-  destruct He as [-> | ->]; exact G.
+  destruct (validate_tuple_config (c_ts c) (c_nt c)) eqn:V.
+  2:{ destruct He as [-> | ->]; discriminate. }
+  destruct (validate_tuple_config_inv _ _ V) as (L1 & L2 & Z).
+  unfold validate_digest_algorithm. rewrite !usize_mul_small by assumption. cbn [negb res_bind].
+  destruct (alg_hexlen (c_alg c) <? c_ts c * c_nt c) eqn:E3.
+  { destruct He as [-> | ->]; discriminate. }
+  cbn [res_bind].
+  destruct He as [He | He]; rewrite He.
+  - intros _. repeat split; try lia; try apply Z; discriminate.
+  - destruct (c_short c).
+    + destruct (alg_hexlen (c_alg c) =? c_ts c * c_nt c) eqn:E4; [discriminate|].
+      intros _. repeat split; try lia; apply Z.
+    + intros _. repeat split; try lia; try apply Z; discriminate.
+Qed.
+
+Lemma cfg_ok_hashed c : (c_ext c = E0003 \/ c_ext c = E0004) -> cfg_ok c = true ->
+  (c_ts c = 0 <-> c_nt c = 0) /\ c_ts c * c_nt c <= alg_hexlen (c_alg c).
+Proof.
+  intros He Hok. destruct (cfg_ok_hashed_full c He Hok) as (_ & _ & Z & P & _). split; assumption.
 Qed.
 
 Lemma cfg_ok_0006 c : c_ext c = E0006 -> cfg_ok c = true -> us_bytes (c_delim c) <> [].
@@ -170,15 +201,16 @@ Qed.
 Lemma max_0003 : K_MAX_0003_ENCAPSULATION_LENGTH = 100.
 Proof. reflexivity. Qed.
 
+(** also for tupleSize = numberOfTuples = 0: no tuples, the root is the encapsulation
+    directory (a known finding until fix e1de1bb) *)
 Lemma map_0003_correct c id dg : c_ext c = E0003 -> cfg_ok c = true -> digest_ok c dg = true ->
-  ustr_wf id = true -> c11_0003_zero_tuples c = false ->
+  ustr_wf id = true ->
   refusal (Layout.map c id dg) = LayoutSpec.map c id dg.
 Proof.
-  intros He Hok Hd W K. unfold Layout.map, LayoutSpec.map. rewrite He.
+  intros He Hok Hd W. unfold Layout.map, LayoutSpec.map. rewrite He.
   destruct (cfg_ok_hashed c (or_introl He) Hok) as [Hz Hp].
   destruct (digest_ok_ascii _ _ Hd) as [Ha Hl].
-  unfold c11_0003_zero_tuples in K. rewrite He in K.
-  unfold map_0003, spec_0003. rewrite K.
+  unfold map_0003, spec_0003.
   rewrite to_tuples_ascii by (assumption || lia). cbn [res_bind].
   rewrite join_snoc, encode_id by exact W. rewrite max_0003.
   unfold encapsulation.
